@@ -6,6 +6,7 @@
 import Flumine.Live
 import Flumine.Props.C03
 import Flumine.Lemmas.Settle
+import Flumine.Lemmas.Strand
 namespace Flumine.C12
 open Flumine Flumine.Live
 
@@ -170,84 +171,8 @@ open Flumine.World Flumine.OL Flumine.Settle Flumine.Inv in
     was false for replace packages: an order that had completed since the request shifted the instructions and
     the last order of the package was never handled.) -/
 theorem package_settles_every_order (w : World) (p : Package) (hI : Inv w) (hp : ∀ oid ∈ p.orders, HasOrder w oid) :
-    ∀ oid ∈ w.packageOrders p, Settled ((w.executePackage p).order! oid) := by
-  have hpo : ∀ oid ∈ w.packageOrders p, HasOrder w oid := fun oid h => hp oid (List.mem_filter.mp h).1
-  intro oid hoid
-  unfold executePackage
-  cases p.kind with
-  | place =>
-    simp only; unfold executePlace
-    have := fold_settles (σ := World) id id (placeStep p) Inv
-      (fun s a h _ => settled_of_outcome _ _ (C03.placeStep_outcome p s a h))
-      (fun s a h _ => fr_placeStep s p s a h)
-      (fun s a _ hi => (good_placeStep p s a).2 hi) (w.packageOrders p) w hI hpo oid hoid
-    simp only [id] at this
-    rw [order!_congr _ _ (show (((w.packageOrders p).foldl (placeStep p) w).addTransaction p.client _ false).orders = _ from rfl) oid]
-    exact this
-  | cancel =>
-    simp only; unfold executeCancel
-    simp only
-    have := fold_settles (σ := World × Nat) (·.1) id (cancelStep p) Inv
-      (fun s a h _ => settled_of_outcome _ _ (C03.cancelStep_outcome p s.1 s.2 a h).1)
-      (fun s a h _ => fr_cancelStep s.1 p s a h)
-      (fun s a _ hi => (good_cancelStep p s a).2 hi) (w.packageOrders p) (w, 0) hI hpo oid hoid
-    simp only [id] at this
-    generalize (w.packageOrders p).foldl (cancelStep p) (w, 0) = r at this
-    obtain ⟨w1, failed⟩ := r
-    simp only at this ⊢
-    split
-    · rw [order!_congr _ _ (show (w1.addTransaction p.client failed true).orders = w1.orders from rfl) oid]; exact this
-    · exact this
-  | update =>
-    simp only; unfold executeUpdate
-    simp only
-    have := fold_settles (σ := World × Nat) (·.1) id (updateStep p) Inv
-      (fun s a h _ => settled_of_outcome _ _ (C03.updateStep_outcome p s.1 s.2 a h).1)
-      (fun s a h _ => fr_updateStep s.1 p s a h)
-      (fun s a _ hi => (good_updateStep p s a).2 hi) (w.packageOrders p) (w, 0) hI hpo oid hoid
-    simp only [id] at this
-    generalize (w.packageOrders p).foldl (updateStep p) (w, 0) = r at this
-    obtain ⟨w1, failed⟩ := r
-    simp only at this ⊢
-    split
-    · rw [order!_congr _ _ (show (w1.addTransaction p.client failed true).orders = w1.orders from rfl) oid]; exact this
-    · exact this
-  | replace =>
-    simp only; unfold executeReplace
-    simp only
-    -- the orders that still have an instruction, each paired with its own
-    have hfr : ∀ (s : World × Nat) (a : Nat × Option Rat), HasOrder s.1 a.1 → Inv s.1 → Fr s.1 a.1 s.1 (replaceStep p s a).1 :=
-      fun s a h hi => fr_replaceStep s.1 p s a h hi (Ids.Keeps.refl s.1)
-    have hP : ∀ (s : World × Nat) (a : Nat × Option Rat), HasOrder s.1 a.1 → Inv s.1 → Inv (replaceStep p s a).1 :=
-      fun s a _ hi => (good_replaceStep p s a).2 hi
-    have hlive : ∀ a ∈ ((w.packageOrders p).filter fun oid => (w.order! oid).status ≠ some .executionComplete).map (fun oid => (oid, (w.order! oid).ud.newPrice)),
-        HasOrder w a.1 := by
-      intro a ha
-      obtain ⟨x, hx, rfl⟩ := List.mem_map.mp ha
-      exact hpo x (List.mem_filter.mp hx).1
-    have hres : Settled (((((w.packageOrders p).filter fun oid => (w.order! oid).status ≠ some .executionComplete).map
-        (fun oid => (oid, (w.order! oid).ud.newPrice))).foldl (replaceStep p) (w, 0)).1.order! oid) := by
-      by_cases hec : (w.order! oid).status = some .executionComplete
-      · -- completed since the request: no instruction, nothing touches it
-        refine fold_keeps_settled (σ := World × Nat) (·.1) (·.1) (replaceStep p) Inv hfr hP oid _ (w, 0) hI hlive ?_ (hpo oid hoid) (Or.inr (Or.inl hec))
-        intro a ha e
-        obtain ⟨x, hx, rfl⟩ := List.mem_map.mp ha
-        have := (List.mem_filter.mp hx).2
-        simp only [ne_eq, decide_eq_true_eq] at this
-        simp only at e
-        rw [e] at this; exact this hec
-      · have hin : (oid, (w.order! oid).ud.newPrice) ∈ ((w.packageOrders p).filter fun oid => (w.order! oid).status ≠ some .executionComplete).map
-            (fun oid => (oid, (w.order! oid).ud.newPrice)) :=
-          List.mem_map.mpr ⟨oid, List.mem_filter.mpr ⟨hoid, by simpa using hec⟩, rfl⟩
-        exact fold_settles (σ := World × Nat) (·.1) (·.1) (replaceStep p) Inv
-          (fun s a h hi => replaceStep_own p s a h hi) hfr hP _ (w, 0) hI hlive _ hin
-    generalize (((w.packageOrders p).filter fun oid => (w.order! oid).status ≠ some .executionComplete).map
-        (fun oid => (oid, (w.order! oid).ud.newPrice))).foldl (replaceStep p) (w, 0) = r at hres
-    obtain ⟨w1, failed⟩ := r
-    simp only at hres ⊢
-    split
-    · exact hres
-    · exact hres
+    ∀ oid ∈ w.packageOrders p, Settled ((w.executePackage p).order! oid) :=
+  Settle.package_settles w p hI hp
 
 open Flumine.World Flumine.OL Flumine.Settle Flumine.Inv in
 /-- ... in every reachable state, for every package waiting in the queue -/
@@ -279,6 +204,44 @@ example : (nvRun.queue.map fun p => (p.kind.name, p.orders)) = [("REPLACE", [0, 
     (nvRun.order! 0).status = some .executionComplete ∧ (nvRun.order! 1).status = some .replacing := by decide +kernel
 example : (nvRun.queue.map fun p => (((nvRun.executePackage p).order! 1).status, (nvRun.executePackage p).orders.length)) =
     [(some .executionComplete, 3)] := by decide +kernel
+
+/-! ### C12 for simulated execution, whole run: no order is ever stranded (`Lemmas/Strand.lean`) -/
+
+open Flumine.World Flumine.OL Flumine.Settle Flumine.Inv Flumine.Fl Flumine.Strand in
+/-- Take ANY history - any sequence of updates of any markets, in any interleaving, any scripted behaviour of any
+    strategies (requests batched or not, forced or not, refused or accepted), packages executed after their latency
+    with any simulated answers, matching, removals, completion loop, closes and re-opens - in which every request went
+    through the market its order was created for (`foreign = 0`, as in C03).  Then every order that is PENDING,
+    CANCELLING, UPDATING or REPLACING is listed by a package that waits in the handler queue, and executing that
+    package leaves it executable or complete: no order is left in an in-flight status without the operation that
+    will settle it.  (By C03 `one_operation_in_flight_whole_run` that package is the only one listing it.) -/
+theorem no_order_stranded_whole_run (cfg : Config) (cl : List Client) (ss : List Strategy)
+    (us : List (Nat × Book × (Nat → List Action)))
+    (hloc : (runUpdates { cfg := cfg, clients := cl, strategies := ss } us).foreign = 0) (oid : Nat)
+    (ho : HasOrder (runUpdates { cfg := cfg, clients := cl, strategies := ss } us) oid)
+    (hf : ((runUpdates { cfg := cfg, clients := cl, strategies := ss } us).order! oid).status = some .pending ∨
+          ((runUpdates { cfg := cfg, clients := cl, strategies := ss } us).order! oid).status = some .cancelling ∨
+          ((runUpdates { cfg := cfg, clients := cl, strategies := ss } us).order! oid).status = some .updating ∨
+          ((runUpdates { cfg := cfg, clients := cl, strategies := ss } us).order! oid).status = some .replacing) :
+    ∃ p ∈ (runUpdates { cfg := cfg, clients := cl, strategies := ss } us).queue,
+      oid ∈ (runUpdates { cfg := cfg, clients := cl, strategies := ss } us).packageOrders p ∧
+      Settled (((runUpdates { cfg := cfg, clients := cl, strategies := ss } us).executePackage p).order! oid) := by
+  obtain ⟨f, c⟩ := strand_reachable cfg cl ss us hloc
+  generalize runUpdates { cfg := cfg, clients := cl, strategies := ss } us = w at f c ho hf
+  have hin := c.cv oid ho hf
+  have hp : pendIds w none = queueIds w := by unfold pendIds batchIds; simp
+  rw [hp] at hin
+  obtain ⟨p, hp1, hp2⟩ := mem_queueIds.mp hin
+  have hpo : oid ∈ w.packageOrders p := by
+    unfold packageOrders
+    refine List.mem_filter.mpr ⟨hp2, ?_⟩
+    simp only [ne_eq, decide_eq_true_eq]
+    intro e
+    rcases hf with h | h | h | h <;> (rw [e] at h; cases h)
+  exact ⟨p, hp1, hpo, Settle.package_settles w p f.inv (fun x hx => (Ids.hasOrder_iff _ x).mpr (f.inv.queue p hp1 x hx)) oid hpo⟩
+
+/-- non-vacuity: in `nvRun` (below: a replace package [0, 1] waits, order 1 is REPLACING) no request was foreign -/
+example : nvRun.foreign = 0 := by decide +kernel
 
 /-! ### non-vacuity -/
 
